@@ -11,14 +11,17 @@ META = {
     'explanation': 'E-ABS interval analysis of ExtendedZoneProcessor::normalizeDateTuple for the range of minutes that the callers '
                    'can hand it (derived from the shipped tables: largest AT/UNTIL time, range of standard offsets and DST shifts): '
                    'the minutes component must come out inside [0, 1439], otherwise the lexicographic comparison of '
-                   '(year, month, day, minutes) in findTransitionForDateTime is not the order of time; E-GNF path summaries '
-                   'of getOffsetDateTime (provenance of the instant and the offset of every returned value); the two look-ups '
+                   '(year, month, day, minutes) in findTransitionForDateTime is not the order of time; both getOffsetDateTime() and '
+                   'ZonedDateTime::forComponents interpreted (E-SEQ, typed) against a model zone with one DST period, at the interface they '
+                   'themselves use - getUtcOffset(e), the look-ups of the transition storage, TimeZone::getOffsetDateTime '
+                   '(acv/rules_C07b.py); the two look-ups '
                    'interpreted (E-SEQ, typed, DateTuple operators and LocalDateTime accessors through their bodies) on pools of '
                    '0..4 transitions with queries before, at, one unit around and between every start.',
     'decided': 'date tuples are canonical (0 <= minutes < 1440) after normalisation for every input the tables can produce; the '
-               'extended result is OffsetDateTime::forEpochSeconds(e, offset of findTransition(e)) for the same e on every '
-               'non-error path; the basic result is either the equilibrium value or rebuilt from (epochSeconds, offset) of the same '
-               'iteration; ZonedDateTime::forComponents returns what the time zone returned; both look-ups return the last '
+               'result of getOffsetDateTime() carries the offset the zone has at the instant the result denotes, for local times inside '
+               'each period and one second before / at / inside / at the end of / after the gap and the overlap; a local time that exists '
+               'once comes back unchanged, one in the gap as an existing time, one in the overlap as one of its two readings; a failed '
+               'init() gives the error value; ZonedDateTime::forComponents returns what the time zone returned; both look-ups return the last '
                'transition whose start is <= the query',
     'not_decided': 'which occurrence is chosen in every overlap/gap of every zone (behavioural)',
     'assumptions': ['clang 14 parser', 'ranges of AT times, offsets and DST shifts are those of the shipped zonedbx tables'],
